@@ -1,11 +1,560 @@
-//! C07 (not built yet)
-use crate::report::{Disagreement, Run};
-use serde_json::Value;
+//! C07 Evaluation is deterministic and independent of editing order.
+//!
+//! Space: every workbook over a few cells with contents from DELTA (dynamic arrays that feed and block each other)
+//! x every permutation of the entry order x {evaluate once at the end, evaluate after every edit, to_bytes/from_bytes
+//! reload after the second edit (unevaluated), evaluate after every edit + reload} x a listed set of hash-order
+//! perturbations. Oracle (differential): the final value / kind / array-structure map over the window equals the one of
+//! the canonical run (entry in listed cell order, evaluate once at the end, perturbation 0); and a second `evaluate()`
+//! changes nothing.
 
-pub fn run(run: &mut Run) {
-    run.machinery_errors.push("C07: check not built yet".into());
+use crate::cellval::{a1, cell_shape, val_of_cell, Val};
+use crate::env::guarded;
+use crate::report::{Disagreement, Run};
+use ironcalc_base::Model;
+use serde_json::{json, Value};
+use std::collections::BTreeSet;
+
+/// (row, column): A1, A2, B1, C1 and (thorough, second block) B2
+pub const CELLS4: [(i32, i32); 4] = [(1, 1), (2, 1), (1, 2), (1, 3)];
+pub const CELLS5: [(i32, i32); 5] = [(1, 1), (2, 1), (1, 2), (1, 3), (2, 2)];
+
+pub const DELTA: [&str; 9] = [
+    "",
+    "5",
+    "=SEQUENCE(2)",
+    "=SEQUENCE(1,2)",
+    "=A1#",
+    "=SUM(A1#)",
+    "=B1:B2*2",
+    "=TRANSPOSE(A1:A2)",
+    "=A1+1",
+];
+
+/// reduced alphabet of the five-cell block (thorough)
+pub const DELTA_B: [&str; 6] = ["", "=SEQUENCE(2)", "=SEQUENCE(1,2)", "=A1#", "=B1:B2*2", "=TRANSPOSE(A1:A2)"];
+
+pub const MODES: [&str; 4] = ["end", "each", "reload", "each+reload"];
+
+const WIN_ROWS: i32 = 5;
+const WIN_COLS: i32 = 6;
+
+type Obs = Vec<(i32, i32, Val, String)>;
+
+fn observe(m: &Model) -> Obs {
+    let mut out = vec![];
+    let ws = &m.workbook.worksheets[0];
+    for r in 1..=WIN_ROWS {
+        for c in 1..=WIN_COLS {
+            let cell = ws.cell(r, c);
+            let v = val_of_cell(m, cell);
+            let s = cell_shape(cell);
+            if v != Val::Blank || s != "none" {
+                out.push((r, c, v, s));
+            }
+        }
+    }
+    // anything stored outside the window is part of the observation too (nothing is expected there)
+    for (sh, r, c, cell) in crate::cellval::all_cells(m) {
+        if sh != 0 || r > WIN_ROWS || c > WIN_COLS {
+            let v = val_of_cell(m, Some(cell));
+            let s = cell_shape(Some(cell));
+            if v != Val::Blank || s != "none" {
+                out.push((r + 1000 * sh as i32, c, v, s));
+            }
+        }
+    }
+    out
 }
 
-pub fn replay(_case: &Value) -> Vec<Disagreement> {
-    vec![]
+fn obs_text(o: &Obs) -> String {
+    let mut s = String::new();
+    for (r, c, v, sh) in o {
+        s.push_str(&format!("{}={} [{}]; ", a1(*r, *c), v.show(), sh));
+    }
+    s
+}
+
+pub fn permutations(n: usize) -> Vec<Vec<usize>> {
+    fn rec(cur: &mut Vec<usize>, used: &mut Vec<bool>, n: usize, out: &mut Vec<Vec<usize>>) {
+        if cur.len() == n {
+            out.push(cur.clone());
+            return;
+        }
+        for i in 0..n {
+            if !used[i] {
+                used[i] = true;
+                cur.push(i);
+                rec(cur, used, n, out);
+                cur.pop();
+                used[i] = false;
+            }
+        }
+    }
+    let mut out = vec![];
+    rec(&mut vec![], &mut vec![false; n], n, &mut out);
+    out
+}
+
+struct Outcome {
+    first: Obs,
+    second: Obs,
+    calls: u64,
+}
+
+fn run_one(contents: &[String], cells: &[(i32, i32)], perm: &[usize], mode: usize) -> Result<Outcome, String> {
+    let each = mode == 1 || mode == 3;
+    let reload = mode == 2 || mode == 3;
+    let mut calls = 0u64;
+    let mut m = Model::new_empty("m", "en", "UTC", "en")?;
+    for (k, &i) in perm.iter().enumerate() {
+        let (r, c) = cells[i];
+        m.set_user_input(0, r, c, contents[i].clone())
+            .map_err(|e| format!("input `{}` into {} rejected: {}", contents[i], a1(r, c), e))?;
+        calls += 1;
+        if each {
+            m.evaluate();
+            calls += 1;
+        }
+        if reload && k == 1 {
+            let b = m.to_bytes();
+            m = Model::from_bytes(&b, "en").map_err(|e| format!("from_bytes failed: {}", e))?;
+            calls += 2;
+        }
+    }
+    if !each {
+        m.evaluate();
+        calls += 1;
+    }
+    let first = observe(&m);
+    m.evaluate();
+    calls += 1;
+    let second = observe(&m);
+    Ok(Outcome { first, second, calls })
+}
+
+/// burns `p` hasher key increments in the current (fresh) thread: every later HashMap gets different SipHash keys
+fn perturb(p: usize) {
+    for _ in 0..p * 5 {
+        let _ = std::collections::hash_map::RandomState::new();
+    }
+}
+
+fn symbol(contents: &[String], cells: &[(i32, i32)], r: i32, c: i32) -> String {
+    for (i, rc) in cells.iter().enumerate() {
+        if *rc == (r, c) {
+            return if contents[i].is_empty() { "<blank input>".to_string() } else { contents[i].clone() };
+        }
+    }
+    "<not an input cell>".to_string()
+}
+
+fn first_diff(a: &Obs, b: &Obs) -> Option<(i32, i32, String, String, String, String)> {
+    use std::collections::BTreeMap;
+    let ma: BTreeMap<(i32, i32), (&Val, &String)> = a.iter().map(|x| ((x.0, x.1), (&x.2, &x.3))).collect();
+    let mb: BTreeMap<(i32, i32), (&Val, &String)> = b.iter().map(|x| ((x.0, x.1), (&x.2, &x.3))).collect();
+    let keys: BTreeSet<(i32, i32)> = ma.keys().chain(mb.keys()).copied().collect();
+    for k in keys {
+        let va = ma.get(&k);
+        let vb = mb.get(&k);
+        let same = match (va, vb) {
+            (Some(x), Some(y)) => x.0 == y.0 && x.1 == y.1,
+            (None, None) => true,
+            _ => false,
+        };
+        if !same {
+            let f = |v: Option<&(&Val, &String)>| match v {
+                Some((v, s)) => (v.kind(), format!("{} [{}]", v.show(), s)),
+                None => ("blank".to_string(), "<blank> [none]".to_string()),
+            };
+            let (ka, ta) = f(va);
+            let (kb, tb) = f(vb);
+            return Some((k.0, k.1, ka, kb, ta, tb));
+        }
+    }
+    None
+}
+
+/// (w, h) of a `dyn WxH` shape
+fn dyn_dims(shape: &str) -> Option<(i32, i32)> {
+    let d = shape.strip_prefix("dyn ")?;
+    let (w, h) = d.split_once('x')?;
+    Some((w.parse().ok()?, h.parse().ok()?))
+}
+
+/// Recognises one specific defect class: two dynamic-array anchors X, Y whose spill rectangles overlap, X spilled and Y shows
+/// #SPILL! in the canonical run while Y spilled and X shows #SPILL! in this run; no constant input cell differs.
+/// Returns the (sorted) pair of formulas.
+fn collision_swap(canon: &Obs, got: &Obs, contents: &[String], cells: &[(i32, i32)]) -> Option<String> {
+    let is_spill_err = |v: &Val| matches!(v, Val::Err(e) if format!("{}", e) == "#SPILL!");
+    let anchors = |o: &Obs| -> Vec<(i32, i32, (i32, i32), bool)> {
+        o.iter().filter_map(|x| dyn_dims(&x.3).map(|d| (x.0, x.1, d, is_spill_err(&x.2)))).collect()
+    };
+    let ca = anchors(canon);
+    let ga = anchors(got);
+    // constants must agree
+    for (i, (r, c)) in cells.iter().enumerate() {
+        if !contents[i].starts_with('=') {
+            let f = |o: &Obs| o.iter().find(|x| x.0 == *r && x.1 == *c).map(|x| (x.2.clone(), x.3.clone()));
+            if f(canon) != f(got) && !(f(canon).map(|x| x.1.starts_with("spill")).unwrap_or(false) || f(got).map(|x| x.1.starts_with("spill")).unwrap_or(false)) {
+                return None;
+            }
+        }
+    }
+    let overlap = |a: (i32, i32, (i32, i32)), b: (i32, i32, (i32, i32))| -> bool {
+        let (ar, ac, (aw, ah)) = a;
+        let (br, bc, (bw, bh)) = b;
+        ar < br + bh && br < ar + ah && ac < bc + bw && bc < ac + aw
+    };
+    for x in &ca {
+        // X spilled in canon, blocked in got
+        if x.3 || x.2 == (1, 1) {
+            continue;
+        }
+        let xg = ga.iter().find(|g| g.0 == x.0 && g.1 == x.1)?;
+        if !xg.3 {
+            continue;
+        }
+        for y in &ga {
+            if y.3 || y.2 == (1, 1) || (y.0, y.1) == (x.0, x.1) {
+                continue;
+            }
+            let yc = match ca.iter().find(|c| c.0 == y.0 && c.1 == y.1) {
+                Some(c) => c,
+                None => continue,
+            };
+            if yc.3 && overlap((x.0, x.1, x.2), (y.0, y.1, y.2)) {
+                let mut pair = [symbol(contents, cells, x.0, x.1), symbol(contents, cells, y.0, y.1)];
+                pair.sort();
+                return Some(format!("`{}`|`{}`", pair[0], pair[1]));
+            }
+        }
+    }
+    None
+}
+
+/// The defect class "blocked or not depending on history": some dynamic-array anchor shows #SPILL! in exactly one of the two
+/// observations, and no constant input cell differs (other than by being covered by a spill).
+fn blocked_differs(canon: &Obs, got: &Obs, contents: &[String], cells: &[(i32, i32)]) -> bool {
+    let is_spill_err = |v: &Val| matches!(v, Val::Err(e) if format!("{}", e) == "#SPILL!");
+    let find = |o: &Obs, r: i32, c: i32| o.iter().find(|x| x.0 == r && x.1 == c).map(|x| (x.2.clone(), x.3.clone()));
+    for (i, (r, c)) in cells.iter().enumerate() {
+        if !contents[i].starts_with('=') && !contents[i].is_empty() && find(canon, *r, *c) != find(got, *r, *c) {
+            return false;
+        }
+    }
+    let mut keys: BTreeSet<(i32, i32)> = BTreeSet::new();
+    for o in [canon, got] {
+        for x in o.iter() {
+            if x.3.starts_with("dyn") {
+                keys.insert((x.0, x.1));
+            }
+        }
+    }
+    // blocked = shows #SPILL! and occupies one cell only
+    keys.iter().any(|(r, c)| {
+        let a = find(canon, *r, *c).map(|x| is_spill_err(&x.0) && x.1 == "dyn 1x1").unwrap_or(false);
+        let b = find(got, *r, *c).map(|x| is_spill_err(&x.0) && x.1 == "dyn 1x1").unwrap_or(false);
+        a != b
+    })
+}
+
+struct UnitOut {
+    ds: Vec<Disagreement>,
+    runs: u64,
+    calls: u64,
+    canon: String,
+    nontrivial: bool,
+}
+
+fn case_json(contents: &[String], cells: &[(i32, i32)], perm: &[usize], mode: usize, p: usize) -> Value {
+    case_json_m(contents, cells, perm, mode, p, &[0, 1, 2, 3])
+}
+
+/// `unit_modes`: the modes the explorer ran in this unit, in order (replay repeats the same sequence of runs)
+fn case_json_m(contents: &[String], cells: &[(i32, i32)], perm: &[usize], mode: usize, p: usize, unit_modes: &[usize]) -> Value {
+    json!({"cells": cells.iter().map(|(r, c)| a1(*r, *c)).collect::<Vec<_>>(), "contents": contents,
+           "perm": perm, "mode": MODES[mode], "perturb": p, "unit_modes": unit_modes})
+}
+
+/// All runs of one workbook under one perturbation, in a fixed order; `only` restricts what is *reported* (replay).
+fn unit(
+    contents: &[String],
+    cells: &[(i32, i32)],
+    perms: &[Vec<usize>],
+    modes: &[usize],
+    p: usize,
+    canon0: Option<&Obs>,
+    only: Option<(&[usize], usize)>,
+) -> (UnitOut, Option<Obs>) {
+    perturb(p);
+    let mut out = UnitOut { ds: vec![], runs: 0, calls: 0, canon: String::new(), nontrivial: false };
+    let identity: Vec<usize> = (0..cells.len()).collect();
+    let canon_here = guarded(|| run_one(contents, cells, &identity, 0));
+    let canon_here = match canon_here {
+        Ok(Ok(o)) => o,
+        Ok(Err(e)) => {
+            out.ds.push(Disagreement {
+                sig: format!("canonical run failed: {}", e.split(':').next().unwrap_or("")),
+                case: case_json_m(contents, cells, &identity, 0, p, modes),
+                detail: e,
+            });
+            return (out, None);
+        }
+        Err(pn) => {
+            out.ds.push(Disagreement {
+                sig: format!("panic at={}", pn.rsplit(" @ ").next().unwrap_or("")),
+                case: case_json_m(contents, cells, &identity, 0, p, modes),
+                detail: pn,
+            });
+            return (out, None);
+        }
+    };
+    let canon: Obs = match canon0 {
+        Some(c) => c.clone(),
+        None => canon_here.first.clone(),
+    };
+    out.canon = obs_text(&canon);
+    out.nontrivial = canon
+        .iter()
+        .any(|x| x.3.starts_with("spill") || matches!(&x.2, Val::Err(e) if format!("{}", e) == "#SPILL!"));
+    for perm in perms {
+        for &mode in modes {
+            let r = guarded(|| run_one(contents, cells, perm, mode));
+            out.runs += 1;
+            if let Some((operm, omode)) = only {
+                if operm != perm.as_slice() || omode != mode {
+                    continue;
+                }
+            }
+            let is_id = *perm == identity;
+            let tag = format!("mode={} order={} perturb={}", MODES[mode], if is_id { "canonical" } else { "permuted" }, if p == 0 { "0" } else { "k" });
+            match r {
+                Err(pn) => out.ds.push(Disagreement {
+                    sig: format!("panic at={} {}", pn.rsplit(" @ ").next().unwrap_or(""), tag),
+                    case: case_json_m(contents, cells, perm, mode, p, modes),
+                    detail: pn,
+                }),
+                Ok(Err(e)) => out.ds.push(Disagreement {
+                    sig: format!("run failed ({}) {}", e.split(':').next_back().unwrap_or("").trim(), tag),
+                    case: case_json_m(contents, cells, perm, mode, p, modes),
+                    detail: format!("{}\ncanonical result: {}", e, obs_text(&canon)),
+                }),
+                Ok(Ok(o)) => {
+                    out.calls += o.calls;
+                    if let Some((r, c, ka, kb, ta, tb)) = first_diff(&canon, &o.first) {
+                        let swap = collision_swap(&canon, &o.first, contents, cells);
+                        let sig = match (&swap, blocked_differs(&canon, &o.first, contents, cells)) {
+                            (_, true) if mode == 1 || mode == 3 => format!(
+                                "history-dependent #SPILL!: whether a dynamic array is blocked depends on spill cells left by an earlier evaluation: mode={} order={}",
+                                MODES[mode],
+                                if is_id { "canonical" } else { "permuted" },
+                            ),
+                            _ => format!(
+                                "final values differ from the canonical run: {} cell=`{}` canonical={} got={}",
+                                tag,
+                                symbol(contents, cells, r, c),
+                                ka,
+                                kb
+                            ),
+                        };
+                        let ta = match &swap {
+                            Some(pair) => format!("{} (the overlapping pair {} swaps winner)", ta, pair),
+                            None => ta,
+                        };
+                        out.ds.push(Disagreement {
+                            sig,
+                            case: case_json_m(contents, cells, perm, mode, p, modes),
+                            detail: format!(
+                                "first differing cell {}: canonical {} / this run {}\ncanonical: {}\nthis run:  {}",
+                                a1(r, c),
+                                ta,
+                                tb,
+                                obs_text(&canon),
+                                obs_text(&o.first)
+                            ),
+                        });
+                    }
+                    if let Some((r, c, ka, kb, ta, tb)) = first_diff(&o.first, &o.second) {
+                        out.ds.push(Disagreement {
+                            sig: if blocked_differs(&o.first, &o.second, contents, cells) && (mode == 1 || mode == 3) {
+                                format!("stale #SPILL!: a dynamic array stays blocked by a spill that the same evaluation removed later; a second evaluate() changes values: mode={}", MODES[mode])
+                            } else {
+                                format!(
+                                    "second evaluate() changes values: mode={} cell=`{}` first={} second={}",
+                                    MODES[mode],
+                                    symbol(contents, cells, r, c),
+                                    ka,
+                                    kb
+                                )
+                            },
+                            case: case_json_m(contents, cells, perm, mode, p, modes),
+                            detail: format!(
+                                "cell {}: after first evaluate {} / after second {}\nfirst:  {}\nsecond: {}",
+                                a1(r, c),
+                                ta,
+                                tb,
+                                obs_text(&o.first),
+                                obs_text(&o.second)
+                            ),
+                        });
+                    }
+                }
+            }
+        }
+    }
+    (out, Some(canon_here.first))
+}
+
+fn workbook(index: usize, n_cells: usize, alphabet: &[&str]) -> Vec<String> {
+    let mut v = vec![];
+    let mut k = index;
+    for _ in 0..n_cells {
+        v.push(alphabet[k % alphabet.len()].to_string());
+        k /= alphabet.len();
+    }
+    v
+}
+
+struct BlockResult {
+    runs: u64,
+    calls: u64,
+    nontrivial: u64,
+    outcomes: BTreeSet<u128>,
+    ds: Vec<Disagreement>,
+    errs: Vec<String>,
+}
+
+fn block(cells: &'static [(i32, i32)], alphabet: &'static [&'static str], modes: &[usize], perturbs: &[usize]) -> BlockResult {
+    let n = alphabet.len().pow(cells.len() as u32);
+    let perms = permutations(cells.len());
+    let res = crate::env::par_units(n, |u| {
+        let contents = workbook(u, cells.len(), alphabet);
+        let mut outs = vec![];
+        let mut canon0: Option<Obs> = None;
+        for &p in perturbs {
+            let r = crate::env::fresh(|| unit(&contents, cells, &perms, modes, p, canon0.as_ref(), None));
+            match r {
+                Ok((o, c)) => {
+                    if canon0.is_none() {
+                        canon0 = c;
+                    }
+                    outs.push(o);
+                }
+                Err(e) => outs.push(UnitOut {
+                    ds: vec![Disagreement {
+                        sig: format!("harness unit died: {}", e),
+                        case: case_json(&contents, cells, &[], 0, p),
+                        detail: e,
+                    }],
+                    runs: 0,
+                    calls: 0,
+                    canon: String::new(),
+                    nontrivial: false,
+                }),
+            }
+        }
+        outs
+    });
+    let mut b = BlockResult { runs: 0, calls: 0, nontrivial: 0, outcomes: BTreeSet::new(), ds: vec![], errs: vec![] };
+    for r in res {
+        match r {
+            Ok(outs) => {
+                if outs.first().map(|o| o.nontrivial).unwrap_or(false) {
+                    b.nontrivial += 1;
+                }
+                for o in outs {
+                    b.runs += o.runs + 1;
+                    b.calls += o.calls;
+                    b.outcomes.insert(crate::env::digest(&o.canon));
+                    b.ds.extend(o.ds);
+                }
+            }
+            Err(e) => b.errs.push(e),
+        }
+    }
+    b
+}
+
+pub fn run(run: &mut Run) {
+    crate::cellval::keep_freed_memory();
+    let thorough = run.tier.thorough();
+    let perturbs: Vec<usize> = if thorough { vec![0, 1] } else { vec![0] };
+    let all_modes: Vec<usize> = match std::env::var("VERIF_C07_MODES") {
+        Ok(v) => v.split(',').filter_map(|x| x.parse().ok()).collect(),
+        Err(_) => if thorough { vec![0usize, 1, 2, 3] } else { vec![0usize, 1, 2] },
+    };
+    // quick: the first eight symbols (without the scalar dependent `=A1+1`)
+    let alpha_a: &'static [&'static str] = if thorough { &DELTA } else { &DELTA[..8] };
+    let b4 = block(&CELLS4, alpha_a, &all_modes, &perturbs);
+    let mut total_runs = b4.runs;
+    let mut calls = b4.calls;
+    let mut nontrivial = b4.nontrivial;
+    let mut outcomes = b4.outcomes.clone();
+    let mut workbooks = alpha_a.len().pow(4) as u64;
+    run.add_all(b4.ds);
+    for e in b4.errs {
+        run.machinery_errors.push(e);
+    }
+    let mut bound = json!({
+        "block_A": {"cells": ["A1","A2","B1","C1"], "alphabet": alpha_a, "workbooks": alpha_a.len().pow(4), "permutations": 24,
+                    "modes": all_modes.iter().map(|m| MODES[*m]).collect::<Vec<_>>(), "hash_perturbations": perturbs},
+    });
+    if thorough {
+        let b5 = block(&CELLS5, &DELTA_B, &[0, 1], &[0]);
+        total_runs += b5.runs;
+        calls += b5.calls;
+        nontrivial += b5.nontrivial;
+        outcomes.extend(b5.outcomes.iter().copied());
+        workbooks += DELTA_B.len().pow(5) as u64;
+        run.add_all(b5.ds);
+        for e in b5.errs {
+            run.machinery_errors.push(e);
+        }
+        bound["block_B"] = json!({"cells": ["A1","A2","B1","C1","B2"], "alphabet": DELTA_B, "workbooks": DELTA_B.len().pow(5),
+            "permutations": 120, "modes": ["end","each"], "hash_perturbations": [0]});
+    }
+    run.bound = bound;
+    run.evaluations = total_runs;
+    run.traces = total_runs;
+    run.states = workbooks;
+    run.transitions = calls;
+    run.nontrivial = nontrivial;
+    run.distinct_outcomes = outcomes.len() as u64;
+    run.rule = "a workbook is non-trivial when its canonical result contains a spilled dynamic array or a #SPILL! error (spills that feed or block other cells)".into();
+    run.sample(case_json(&workbook(2 + 9 * 5 + 81 * 1, 4, &DELTA), &CELLS4, &[0, 1, 2, 3], 0, 0));
+    run.sample(case_json(&workbook(3 + 9 * 0 + 81 * 7 + 729 * 4, 4, &DELTA), &CELLS4, &[3, 2, 1, 0], 1, 0));
+    run.sample(case_json(&workbook(4095, 4, &DELTA[..8]), &CELLS4, &[1, 0, 3, 2], 2, 0));
+    run.exhaustive = true;
+    run.assume("hash-map iteration order is controlled (getrandom shim), not exhausted: inside one unit (one workbook, one fresh thread) every run gets the next SipHash keys of the thread, so the canonical run and each permuted run iterate their maps in different orders; a perturbation additionally shifts the whole key sequence of the unit");
+    run.assume("a blank content is entered as an empty input (set_user_input with \"\") at its place in the entry order");
+    run.assume("values are read from the stored cells (kind, value, formula/array/spill role) over A1:F5 plus any stored cell outside; error origin/message texts are not compared");
+}
+
+pub fn replay(case: &Value) -> Vec<Disagreement> {
+    let names: Vec<String> = case["cells"].as_array().map(|a| a.iter().filter_map(|x| x.as_str().map(|s| s.to_string())).collect()).unwrap_or_default();
+    let cells: &'static [(i32, i32)] = if names.len() == 5 { &CELLS5 } else { &CELLS4 };
+    let contents: Vec<String> = case["contents"].as_array().map(|a| a.iter().map(|x| x.as_str().unwrap_or("").to_string()).collect()).unwrap_or_default();
+    if contents.len() != cells.len() {
+        return vec![];
+    }
+    let perm: Vec<usize> = case["perm"].as_array().map(|a| a.iter().map(|x| x.as_u64().unwrap_or(0) as usize).collect()).unwrap_or_default();
+    let mode = MODES.iter().position(|m| Some(*m) == case["mode"].as_str()).unwrap_or(0);
+    let p = case["perturb"].as_u64().unwrap_or(0) as usize;
+    let perms = permutations(cells.len());
+    let modes: Vec<usize> = match case["unit_modes"].as_array() {
+        Some(a) => a.iter().map(|x| x.as_u64().unwrap_or(0) as usize).collect(),
+        None => if cells.len() == 5 { vec![0, 1] } else { vec![0, 1, 2, 3] },
+    };
+    // canonical observation comes from perturbation 0 in its own fresh thread, as in the explorer
+    let canon0 = if p == 0 {
+        None
+    } else {
+        crate::env::fresh(|| unit(&contents, cells, &perms, &modes, 0, None, Some((&[], 99))))
+            .ok()
+            .and_then(|x| x.1)
+    };
+    match crate::env::fresh(|| unit(&contents, cells, &perms, &modes, p, canon0.as_ref(), Some((&perm, mode)))) {
+        Ok((o, _)) => o.ds,
+        Err(e) => vec![Disagreement { sig: format!("harness unit died: {}", e), case: case.clone(), detail: e }],
+    }
 }
